@@ -35,8 +35,8 @@ impl Check for C05 {
     }
     fn runs(&self, tier: Tier) -> u64 {
         match tier {
-            Tier::Quick => 300_000,
-            Tier::Thorough => 20_000_000,
+            Tier::Quick => 4_000_000,
+            Tier::Thorough => 120_000_000,
         }
     }
 
